@@ -5,6 +5,7 @@ import (
 	"go/constant"
 	"go/token"
 	"regexp/syntax"
+	"sort"
 	"strings"
 
 	"golang.org/x/tools/go/ssa"
@@ -231,10 +232,85 @@ func Cow(p *core.Prog, r *core.Report) {
 	// --- lookup / compile functions -----------------------------------------
 	compileNames := map[string]bool{"regexp.Compile": true, "regexp.MustCompile": true, "regexp.CompilePOSIX": true, "regexp.MustCompilePOSIX": true}
 	lookupFuncs := map[*ssa.Function]bool{}
+	// pure lookup helpers: load the snapshot, never compile, return the entry of their string parameter (or nil)
+	helpers := map[*ssa.Function]bool{}
+	compiles := func(f *ssa.Function) bool {
+		found := false
+		core.EachInstr(f, func(i ssa.Instruction) {
+			if c, ok := i.(ssa.CallInstruction); ok {
+				if g := core.StaticCallee(c); g != nil && compileNames[core.QualName(g)] {
+					found = true
+				}
+			}
+		})
+		return found
+	}
 	for _, f := range loadFuncs {
-		if f == insertFn {
+		if f == insertFn || compiles(f) {
 			continue
 		}
+		fn := core.FuncName(f)
+		var pat *ssa.Parameter
+		nStr := 0
+		for _, prm := range f.Params {
+			if prm.Type().String() == "string" {
+				pat = prm
+				nStr++
+			}
+		}
+		okH := nStr == 1
+		core.EachInstr(f, func(i ssa.Instruction) {
+			if lk, ok := i.(*ssa.Lookup); ok {
+				if _, isCache := fromLoad(lk.X, 0); isCache && lk.Index != ssa.Value(pat) {
+					okH = false
+				}
+			}
+		})
+		for _, b := range f.Blocks {
+			if ret, ok := b.Instrs[len(b.Instrs)-1].(*ssa.Return); ok {
+				if len(ret.Results) != 1 {
+					okH = false
+					continue
+				}
+				v := ret.Results[0]
+				if core.IsNilConst(v) {
+					continue
+				}
+				lk, isLk := v.(*ssa.Lookup)
+				if !isLk {
+					okH = false
+					continue
+				}
+				if _, isCache := fromLoad(lk.X, 0); !isCache || lk.Index != ssa.Value(pat) {
+					okH = false
+				}
+			}
+		}
+		if okH {
+			helpers[f] = true
+			r.OK(rule, "lookup-helper:"+fn, p.Pos(f.Pos()), "pure lookup helper: returns the snapshot's entry for its pattern parameter, or nil")
+		} else {
+			r.Bad(rule, "lookup-helper:"+fn, p.Pos(f.Pos()), "a function reads the published cache without compiling, and does not simply return the entry of its pattern parameter: the cache is consulted in a way the rules do not cover")
+		}
+	}
+	// compile functions: load the cache themselves or through a lookup helper
+	var compileFuncs []*ssa.Function
+	for _, f := range p.Funcs {
+		if f == insertFn || helpers[f] || !compiles(f) || !p.InSubject(f) {
+			continue
+		}
+		compileFuncs = append(compileFuncs, f)
+	}
+	sort.Slice(compileFuncs, func(i, j int) bool { return core.FuncName(compileFuncs[i]) < core.FuncName(compileFuncs[j]) })
+	helperHit := func(v ssa.Value, pat *ssa.Parameter) bool {
+		c, ok := v.(*ssa.Call)
+		if !ok {
+			return false
+		}
+		g := core.StaticCallee(c)
+		return g != nil && helpers[g] && len(c.Call.Args) > 0 && c.Call.Args[len(c.Call.Args)-1] == ssa.Value(pat)
+	}
+	for _, f := range compileFuncs {
 		lookupFuncs[f] = true
 		fn := core.FuncName(f)
 		var pat *ssa.Parameter
@@ -262,6 +338,10 @@ func Cow(p *core.Prog, r *core.Report) {
 					r.Bad(rule, "lookup:"+fn+":key", p.Pos(x.Pos()), "the cache is looked up with a key other than the requested pattern")
 				}
 			case *ssa.Call:
+				if g := core.StaticCallee(x); g != nil && helpers[g] && !helperHit(x, pat) {
+					okLookups = false
+					r.Bad(rule, "lookup:"+fn+":key", p.Pos(x.Pos()), "the cache is looked up (through "+g.Name()+") with a key other than the requested pattern")
+				}
 				if g := core.StaticCallee(x); g != nil && compileNames[core.QualName(g)] {
 					if x.Call.Args[0] != ssa.Value(pat) {
 						r.Bad(rule, "lookup:"+fn+":compile-arg", p.Pos(x.Pos()), "the expression is compiled from something other than the requested pattern")
@@ -315,6 +395,9 @@ func Cow(p *core.Prog, r *core.Report) {
 					if _, ok := fromLoad(lk.X, 0); ok && lk.Index == ssa.Value(pat) {
 						continue
 					}
+				}
+				if helperHit(v, pat) {
+					continue
 				}
 				retOK = false
 				r.Bad(rule, "lookup:"+fn+":result", p.Pos(ret.Pos()), "the returned expression is neither the cache entry of the requested pattern nor the expression compiled from it")
